@@ -73,13 +73,15 @@ def _cast(m, t):
     return t if t is None or not t.is_floating_point() else t.to(_dtype_of(m))
 
 
-def evaluate(m, cfg, train_forward=True):
-    """-> dict call -> bytes | ('raised', type).  eval-mode calls first, one training-mode forward last."""
+def evaluate(m, cfg, train_forward=True, toggle=True):
+    """-> dict call -> bytes | ('raised', type).  eval-mode calls first, one training-mode forward last.
+    toggle=False: the model is used exactly in the state it is in (no eval()/train() call: those may refresh per-instance caches)"""
     out = {}
     x, c = fixed_inputs(cfg)
     x, c = _cast(m, x), _cast(m, c)
     was = m.training
-    m.eval()
+    if toggle:
+        m.eval()
 
     def rec(name, fn):
         try:
@@ -119,7 +121,8 @@ def evaluate(m, cfg, train_forward=True):
                 out['forward(train)'] = b'|'.join(ST.tensor_bytes(t) for t in ST.tensors_in(fn()))
         except Exception as e:
             out['forward(train)'] = ('raised', type(e).__name__)
-    m.train(was)
+    if toggle:
+        m.train(was)
     return out
 
 
@@ -384,6 +387,18 @@ def one_case(cfg, hist, sa, sb, entries):
     outA = evaluate(A, cfg)
     outB = evaluate(B, cfg)
     diff_calls = sorted(k for k in set(outA) | set(outB) if outA.get(k) != outB.get(k))
+    # the other usual order: the fresh model is put in evaluation mode BEFORE the state is loaded
+    B2 = zoo.build(cfg, sb)
+    if hist.startswith('f64'):
+        B2 = B2.double()
+    B2.eval()
+    try:
+        B2.load_state_dict(sd)
+        mirror_modes(A, B2)
+        outB2 = evaluate(B2, cfg, train_forward=False, toggle=False)        # used as it is: build().eval(); load_state_dict(sd); model(x)
+        diff_calls = sorted(set(diff_calls) | {k + '@eval-before-load' for k in outB2 if outA.get(k) != outB2.get(k)})
+    except Exception as e:
+        load_error = load_error or repr(e)[:300]
     b_differed = any(outA.get(k) != outB0.get(k) for k in outB0)
     return {'pre': pre, 'post': post, 'fresh': fresh, 'after': after, 'load_error': load_error, 'diff_calls': diff_calls,
             'b_differed_before_load': b_differed, 'raised': sorted(k for k, v in outA.items() if isinstance(v, tuple))}
@@ -507,7 +522,18 @@ def behavioural(cfg, hist, sa, sb):
         return ['load_state_dict raised ' + type(e).__name__]
     mirror_modes(A, B)
     oa, ob = evaluate(A, cfg), evaluate(B, cfg)
-    return sorted(k for k in set(oa) | set(ob) if oa.get(k) != ob.get(k))
+    diff = sorted(k for k in set(oa) | set(ob) if oa.get(k) != ob.get(k))
+    B2 = zoo.build(cfg, sb)
+    if hist.startswith('f64'):
+        B2 = B2.double()
+    B2.eval()
+    try:
+        B2.load_state_dict(sd)
+    except Exception as e:
+        return diff + ['load_state_dict raised ' + type(e).__name__]
+    mirror_modes(A, B2)
+    ob2 = evaluate(B2, cfg, train_forward=False, toggle=False)
+    return sorted(set(diff) | {k + '@eval-before-load' for k in ob2 if oa.get(k) != ob2.get(k)})
 
 
 def search(ctx):
